@@ -20,8 +20,28 @@ from .srcmodel import AnalysisError, Repo
 PROPS = ['C%02d' % i for i in range(1, 21)]
 
 
+class _Watchdog(Exception):
+    pass
+
+
+def _arm_watchdog(seconds: int, prop: str):
+    """An analysis that does not reach its fix-point must end as ANALYSIS-ERROR (exit 2), never hang the caller."""
+    import signal
+
+    def on_alarm(signum, frame):
+        print('ANALYSIS-ERROR property=%s analysis did not terminate within %d s' % (prop, seconds))
+        sys.stdout.flush()
+        os._exit(2)
+    try:
+        signal.signal(signal.SIGALRM, on_alarm)
+        signal.alarm(seconds)
+    except (ValueError, AttributeError):
+        pass
+
+
 def run_property(prop: str, tier: str, seed: int) -> int:
     t0 = time.time()
+    _arm_watchdog(int(os.environ.get('VERIF_TIMEOUT', '240' if tier != 'thorough' else '3000')), prop)
     try:
         mod = importlib.import_module('pnd_static.props.%s' % prop.lower())
     except ImportError as exc:
@@ -30,6 +50,7 @@ def run_property(prop: str, tier: str, seed: int) -> int:
     try:
         repo = Repo()
         rep = Report(prop)
+        rep.notes['normalisation'] = dict(repo.normalize_stats, helpers_inlined=sorted({r[1] for r in repo.normalized_helpers}))
         mod.run(repo, rep)
         extra = None
         if tier == 'thorough':
